@@ -72,6 +72,8 @@ def run(ctx):
         feas, desc = gen.gen_constraint(rng, spec["space"], kind=rng.choice(["parity", "band"]))
         spec["feasible"], spec["constraint_desc"] = feas, desc
         specs.append(spec)
+    # per optimizer two longer runs with hyper-parameters at / beyond the ends of their ranges (rand_rest_p > 0 in part of them)
+    specs += sweep.extreme_specs(ctx, "c19", rounds=(1 if ctx.quick else 4))
     for spec in specs:
         out = instr.run_steps(spec, per_step_s=8)
         ctx.monitor_runs += 1
